@@ -4,16 +4,28 @@
 // Codecs are assumed here (table_types_ok) and proved in unit codec / Kani.
 
 #[verifier::external_body]
-#[derive(Clone, Copy, PartialEq, Eq, Hash)]
+#[derive(Clone, Copy, Eq, Hash)]
 pub struct Address { _p: () }
+impl PartialEq for Address {
+    #[verifier::external_body]
+    fn eq(&self, other: &Self) -> (r: bool) ensures r == (*self == *other) { unimplemented!() }
+}
 
 #[verifier::external_body]
-#[derive(Clone, Copy, PartialEq, Eq, Hash)]
+#[derive(Clone, Copy, Eq, Hash)]
 pub struct B256 { _p: () }
+impl PartialEq for B256 {
+    #[verifier::external_body]
+    fn eq(&self, other: &Self) -> (r: bool) ensures r == (*self == *other) { unimplemented!() }
+}
 
 #[verifier::external_body]
-#[derive(Clone, Copy, PartialEq, Eq, Hash)]
+#[derive(Clone, Copy, Eq, Hash)]
 pub struct U256 { _p: () }
+impl PartialEq for U256 {
+    #[verifier::external_body]
+    fn eq(&self, other: &Self) -> (r: bool) ensures r == (*self == *other) { unimplemented!() }
+}
 
 #[verifier::external_body]
 #[derive(PartialEq, Eq, Hash)]
@@ -508,3 +520,18 @@ impl B256 {
     #[verifier::external_body]
     pub const ZERO: B256 = B256 { _p: () };
 }
+
+// serde_either::SingleOrVec (topic filter position: one value or a list of alternatives)
+pub enum SingleOrVec<T> {
+    Single(T),
+    Vec(Vec<T>),
+}
+
+// N27: `v.iter().any(|x| P(x))`
+#[verifier::external_body]
+pub fn vec_any_opt_b256<F: Fn(&Option<B256>) -> bool>(v: &Vec<Option<B256>>, f: F) -> (r: bool)
+    requires forall|i: int| 0 <= i < v@.len() ==> call_requires(f, (&v@[i],)),
+    ensures
+        r ==> exists|i: int| 0 <= i < v@.len() && call_ensures(f, (&#[trigger] v@[i],), true),
+        !r ==> forall|i: int| 0 <= i < v@.len() ==> call_ensures(f, (&#[trigger] v@[i],), false),
+{ v.iter().any(|x| f(x)) }
